@@ -55,6 +55,27 @@ pub fn catch<T>(f: impl FnOnce() -> T + std::panic::UnwindSafe) -> Result<T, Str
     })
 }
 
+/// Breadcrumb: the input about to be handed to the code under test, written to the file named by VERIF_CRUMB. A panic is
+/// caught and reported by the harness itself; an abort (allocation failure, stack overflow) kills the process - the check then
+/// reads the breadcrumb to say which input did it.
+pub fn crumb(what: &str, bytes: &[u8]) {
+    use std::io::Write;
+    thread_local! {
+        static F: std::cell::RefCell<Option<std::fs::File>> = std::cell::RefCell::new(
+            std::env::var("VERIF_CRUMB").ok().and_then(|p| std::fs::OpenOptions::new().create(true).write(true).truncate(true).open(p).ok()));
+    }
+    F.with(|f| {
+        if let Some(f) = f.borrow_mut().as_mut() {
+            use std::io::Seek;
+            let hexs: String = bytes.iter().take(4096).map(|b| format!("{:02x}", b)).collect();
+            let line = format!("{{\"what\":\"{}\",\"len\":{},\"hex\":\"{}\"}}\n", what, bytes.len(), hexs);
+            let _ = f.seek(std::io::SeekFrom::Start(0));
+            let _ = f.write_all(line.as_bytes());
+            let _ = f.set_len(line.len() as u64);
+        }
+    });
+}
+
 pub fn silence_panics() {
     std::panic::set_hook(Box::new(|_| {}));
 }
